@@ -73,7 +73,7 @@ def gen_cases(rng, quick):
         big = eff > 8000
         for m in range(4):
             for unordered in (0, 1):
-                if big and kind not in ('commands',) and (m + unordered + len(cases)) % 2 == 0 and quick:
+                if big and kind not in ('commands', 'receive-buffer') and (m + unordered + len(cases)) % 2 == 0 and quick:
                     continue        # the large non-command limits: half of the (method, mode) grid per run
                 bound = MAXEXTRA - TAG[m] + 1
                 script = [bound - 1 if rng.random() < 0.6 else rng.randrange(256)]
